@@ -113,6 +113,8 @@ func configByName(name string, seedIdx int) h.Config {
 			c.Literals = true
 		case "seed":
 			c.Seed = fixedSeeds[seedIdx%len(fixedSeeds)]
+		case "seedlong":
+			c.Seed = fixedSeeds[1] // 12 bytes: longer than the 8 bytes math/rand is seeded with
 		case "modonly":
 			c.GOGARBLE = modOnlyPattern
 		case "ctrlflow":
